@@ -11,7 +11,7 @@ Next ==
          o  == T[tid].ev[l][2]
      IN /\ envbad' = (envbad \/ iv \notin Inputs(C))
         /\ CStep(C, iv, o)
-        /\ stall' = IF obs'.busy /\ obs'.sfair /\ obs'.mfair THEN stall + 1 ELSE 0
+        /\ stall' = IF (\E i \in 1..MAXN : ~obs'.prog[i]) /\ obs'.fair THEN stall + 1 ELSE 0
   /\ l' = l + 1 /\ tid' = tid
 EnvLegal == ~envbad
 BoundedService == stall < C.stallbound
